@@ -302,6 +302,9 @@ func fixChunks(o *WOp) {
 	}
 	rem := o.Pay.Len
 	for i := range o.Chunks {
+		if h := o.Chunks[i].How; h == "e+" || h == "e-" || h == "l" {
+			continue
+		}
 		if o.Chunks[i].N > rem {
 			o.Chunks[i].N = rem
 		}
